@@ -144,7 +144,11 @@ class Oracle:
         return self.listed(p, flags, (None, None))
 
 
-def make_handler(flags, win, log):
+# names that the path grammar rejects anyway: telling the handler to ignore them (a documented option) changes nothing
+IGNORE_NONFINAL = [r".*/tmp\.[^/]*$", r".*\.bak$", r".*/\.[^/]*$"]
+
+
+def make_handler(flags, win, log, ignore=None):
     drf = rfharness.drf()
     from digital_rf import watchdog_drf
 
@@ -162,7 +166,7 @@ def make_handler(flags, win, log):
             log.append(("moved", event.src_path, event.dest_path))
 
     return Rec(starttime=dt(win[0], _nv(win)), endtime=dt(win[1], _nv(win)), include_drf=flags[0], include_dmd=flags[1],
-               include_drf_properties=flags[2], include_dmd_properties=flags[3])
+               include_drf_properties=flags[2], include_dmd_properties=flags[3], **({"ignore_regexes": ignore} if ignore else {}))
 
 
 def judge_tuple(orc, paths, res, count, flags_list=None, windows=None):
@@ -174,6 +178,7 @@ def judge_tuple(orc, paths, res, count, flags_list=None, windows=None):
         for win in windows or WINDOWS:
             log = []
             h = make_handler(flags, win, log)
+            h_ign = make_handler(flags, win, log, IGNORE_NONFINAL) if tuple(win[:2]) == (None, None) else None
             for p in paths:
                 _root, full = orc.tree_for(p)
                 acc = orc.listed(p, flags, win)
@@ -201,10 +206,18 @@ def judge_tuple(orc, paths, res, count, flags_list=None, windows=None):
                     src, dst = orc.tree_for(ps)[1], orc.tree_for(pd)[1]
                     ms, md_ = orc.matches(ps, flags), orc.matches(pd, flags)
                     ins, ind = orc.listed(ps, flags, win), orc.listed(pd, flags, win)
+                    if h_ign is not None:
+                        # a handler told to ignore names that can never match (tmp. files, *.bak, dot files) behaves alike
+                        del log[:]
+                        h_ign.dispatch(ev.FileMovedEvent(src, dst))
+                        ign_log = list(log)
                     del log[:]
                     h.dispatch(ev.FileMovedEvent(src, dst))
                     n += 1
                     nt += 1
+                    if h_ign is not None and ign_log != log:
+                        res.fail("ignore-regexes-change-dispatch", "moved %s -> %s flags=%r: %r with ignore_regexes for non-final names, %r without" % (src, dst, flags, ign_log, log))
+                        orc.fail_cases.append({"paths": [list(ps), list(pd)], "flags": list(flags), "win": list(win)})
                     if md_ and not ms:
                         exp = [("created", dst, None)] if ind else []
                     elif ms and not md_:
